@@ -84,6 +84,11 @@ class Sim:
         self.trace_enabled = True
         self.tagger = None
         self.trace_hook = None
+        # optional fine-grained mode: a predicate on code objects; every source line executed inside a matching
+        # function is a scheduling point (finds races between plain statements, where no primitive is involved)
+        self.line_points = None
+        self.prio = {}
+        self.change_points = {self.rng.randrange(1, 400) for _ in range(2)} if policy == "pct" else set()
 
     # ------------------------------------------------------------------ labelling / tracing
     def label(self, obj, name):
@@ -142,6 +147,20 @@ class Sim:
             self.tls.lt = lt
             lt.sem.acquire()
             try:
+                if self.line_points is not None:
+                    import sys as _sys
+                    sim_ = self
+
+                    def local(frame, event, arg):
+                        if event == "line" and not sim_.aborted:
+                            sim_.point("line")
+                        return local
+
+                    def tracer(frame, event, arg):
+                        if event == "call" and sim_.line_points(frame.f_code):
+                            return local
+                        return None
+                    _sys.settrace(tracer)
                 if not self.aborted:
                     lt.fn()
             except SimAbort:
@@ -187,6 +206,17 @@ class Sim:
                     self.sched_pos += 1
                 elif self.policy == "random":
                     k = self.rng.randrange(len(run))
+                elif self.policy == "pct":
+                    # PCT-style priority scheduling (Burckhardt et al.): random thread priorities, the highest runnable
+                    # thread always runs, and at a few random step numbers the running thread drops to the lowest
+                    # priority.  Finds orderings in which one thread must run far ahead of another, which uniform
+                    # random choice at every point practically never produces.
+                    for t in run:
+                        if t.tid not in self.prio:
+                            self.prio[t.tid] = self.rng.random()
+                    if self.points in self.change_points and me is not None and me.tid in self.prio:
+                        self.prio[me.tid] = -1.0 - len(self.decisions) * 1e-6
+                    k = max(range(len(run)), key=lambda j: self.prio[run[j].tid])
                 elif self.policy == "sticky" and me in run:
                     k = run.index(me)
                 else:
